@@ -388,7 +388,7 @@ TypeOK ==
     /\ (phase = "failed") => err # "none"
     /\ tmp = "present" => IsArchive(inp.pack) \/ inp.pack = "badgz"
 
-Identified == phase \in {"identified", "created", "seeded"} \/ (phase \in {"failed", "done"} /\ found # NoChoice)
+Identified == found # NoChoice
 Created    == ctx # NoChoice
 
 (* which context wins when several markers are present, and its root        *)
@@ -413,7 +413,7 @@ CreateAllowed ==
     Created => ctx \in RefCreate(lst, X0, Reg, inp.override)
 (* the listing is the set of regular files of the input                     *)
 ListedExactly ==
-    (phase \notin {"start", "extracted"} /\ lst # {} /\ inp.evil = "none") => lst = TreeListing(inp)
+    (phase \in {"listed", "identified", "created", "seeded"} /\ inp.evil = "none") => lst = TreeListing(inp)
 (* the broker holds exactly the context - and the hydrated components       *)
 BrokerSeededExactly ==
     /\ phase = "seeded" => broker = RefBroker(A0, ctx)
